@@ -108,10 +108,11 @@ def run(chk):
     chk.section("place-indices", lambda: place_indices(chk))
     chk.section("augassign-index", lambda: augassign_index(chk))
     chk.section("iteration", lambda: iteration(chk))
+    chk.section("unwrap-helpers", lambda: unwrap_helpers(chk))
     chk.expected_min_obligations = 20
     chk.assumptions += [
         "HUGR op semantics (hugr std collections.array / borrow_arr, prelude): array.get returns Some(a[i]) iff i < n and the unchanged array; array.set returns Right((old, a[i:=v])) iff i < n; borrow_array.borrow(a, i) panics unless i < n and element i is present, yields the element and marks it lent; borrow_array.return panics unless i < n and element i is lent; pop_left/pop_right remove the first/last element; convert itousize reinterprets the 64-bit integer as unsigned",
-        "build_unwrap_right / build_unwrap (std/_internal/compiler/prelude.py) panic with the given message iff the value is the Left/None variant",
+        "build_unwrap (Option) panics with the given message iff the value is None (build_unwrap_right / build_unwrap_left are under contract in the unwrap-helpers section)",
         "array lengths are below 2^63",
         "unpacking patterns with at most 2 names on each side of the starred target are enumerated",
     ]
@@ -774,6 +775,89 @@ try:
         out = {"violates": got != want, "observed": got, "required": want}
     except Exception as ex:
         out = {"violates": "anic" in str(ex), "observed": str(ex)[:200]}
+except Exception as ex:
+    out = {"violates": False, "error": repr(ex)[:300]}
+shutil.rmtree(d, ignore_errors=True)
+print(json.dumps(out))
+'''
+
+
+def unwrap_helpers(chk):
+    """build_unwrap_right / build_unwrap_left (std/_internal/compiler/prelude.py), the helpers the array
+    compilers use to turn "the hugr op reported failure" into a panic.  Real code against a recording
+    conditional builder, for sums whose two variants carry different rows AND for sums whose variants
+    carry the same row (the classical `set` op returns Either([elem, array], [elem, array])): the
+    conditional has exactly the cases 0 and 1; for unwrap_right case 0 (Left = failure) panics with the
+    given message and signal and case 1 passes its inputs through; mirrored for unwrap_left.  WHICH case
+    panics is decided by the tag, never by the rows."""
+    from pyvc.loops import NativeCM
+    PM = "guppylang_internals.std._internal.compiler.prelude"
+    e = mk_engine(chk)
+    m = e.module(PM)
+    SUM = ClassVal("Sum", builtin=True)
+    e.ext_models["hugr.tys.Sum"] = SUM
+    for fname, panic_case in (("build_unwrap_right", 0), ("build_unwrap_left", 1)):
+        e.func_info(PM, fname)
+        for rows in ((["A"], ["B", "C"]), (["E", "ARR"], ["E", "ARR"]), ([], ["X"]), (["X"], [])):
+            def t(it, fname=fname, rows=rows):
+                log = []
+                e.models[f"{PM}:build_static_error"] = lambda it2, a, k: ("ERROR", a[1], a[2])
+                e.models[f"{PM}:build_panic"] = lambda it2, a, k: [("PANIC-OUT", a[0] is not None, tuple(a[1]), tuple(a[2]), a[3], tuple(a[4:]))]
+
+                def add_case(i):
+                    case = SObj(ClassVal("Case", builtin=True), {"i": i})
+                    case.fields["inputs"] = Builtin("inputs", lambda i=i: [f"IN{i}.{k}" for k in range(len(rows[i]))])
+                    case.fields["set_outputs"] = Builtin("set_outputs", lambda *o, i=i: log.append(("outputs", i, list(o))))
+                    return NativeCM(lambda: case, lambda *a: False)
+                cond = SObj(ClassVal("Conditional", builtin=True), {"add_case": Builtin("add_case", add_case), "to_node": Builtin("to_node", lambda: "COND-NODE")})
+                ty = SObj(SUM, {"variant_rows": [list(rows[0]), list(rows[1])]})
+                hugr = SObj(ClassVal("H", builtin=True), {"port_type": Builtin("port_type", lambda p_: ty)})
+                builder = SObj(ClassVal("B", builtin=True), {"hugr": hugr, "add_conditional": Builtin("add_conditional", lambda w: (log.append(("cond", w)), cond)[1])})
+                either = SObj(ClassVal("Wire", builtin=True), {"out_port": Builtin("out_port", lambda: "PORT")})
+                r = it.call(it.lookup_global(m, fname), [builder, either, "MSG", 7], {})
+                return r, log, either
+            paths = e.explore(t)
+
+            def post(p, rows=rows, panic_case=panic_case):
+                if p.kind != "return":
+                    return z3.BoolVal(False)
+                r, log, either = p.value
+                outs = {x[1]: x[2] for x in log if x[0] == "outputs"}
+                ok = r == "COND-NODE" and [x for x in log if x[0] == "cond"] == [("cond", either)] and sorted(outs) == [0, 1] and len([x for x in log if x[0] == "outputs"]) == 2
+                ok_case = 1 - panic_case
+                ok = ok and outs.get(ok_case) == [f"IN{ok_case}.{k}" for k in range(len(rows[ok_case]))]
+                po = outs.get(panic_case)
+                ok = ok and isinstance(po, list) and len(po) == 1 and isinstance(po[0], tuple) and po[0][0] == "PANIC-OUT" and po[0][4] == ("ERROR", 7, "MSG") \
+                    and po[0][2] == tuple(rows[panic_case]) and po[0][3] == tuple(rows[ok_case]) and po[0][5] == tuple(f"IN{panic_case}.{k}" for k in range(len(rows[panic_case])))
+                return z3.BoolVal(bool(ok))
+            chk.prove_paths(f"{fname}[rows {rows[0]} | {rows[1]}]:case-{panic_case}-panics-with-the-message-and-signal/\\case-{1 - panic_case}-passes-its-inputs-through(decided-by-the-tag,not-by-the-rows)", paths, post,
+                            func=f"{PM}:{fname}", replay=lambda m_: {"script": REPLAY_OOB_WRITE, "input": {}})
+    chk.use_engine(e)
+
+
+REPLAY_OOB_WRITE = r'''
+import guppy_plainbool
+import tempfile, importlib.util, os, sys, shutil
+src = """from guppylang import guppy
+from guppylang.std.builtins import array, result
+@guppy
+def main(i: int) -> None:
+    xs = array(10, 20, 30)
+    xs[i] = 21
+    result("x0", xs[0]); result("x1", xs[1]); result("x2", xs[2])
+@guppy
+def go() -> None:
+    main(3)
+"""
+d = tempfile.mkdtemp(dir=os.environ.get("TMPDIR", "/var/tmp")); fn = os.path.join(d, "replay_c19w.py"); open(fn, "w").write(src)
+spec = importlib.util.spec_from_file_location("replay_c19w", fn); m = importlib.util.module_from_spec(spec); sys.modules["replay_c19w"] = m
+try:
+    spec.loader.exec_module(m)
+    try:
+        got = [list(x) for x in list(m.go.emulator(n_qubits=1).run().results)[0].entries]
+        out = {"violates": True, "observed": got, "required": "xs[3] = 21 on an array of length 3 must panic"}
+    except Exception as ex:
+        out = {"violates": "anic" not in str(ex) and "rror" not in type(ex).__name__, "observed": type(ex).__name__ + ": " + str(ex)[:120]}
 except Exception as ex:
     out = {"violates": False, "error": repr(ex)[:300]}
 shutil.rmtree(d, ignore_errors=True)
